@@ -18,6 +18,71 @@ def is_os_environ(n: ast.AST) -> bool:
     return isinstance(n, ast.Attribute) and n.attr == "environ" and isinstance(n.value, ast.Name) and n.value.id == "os"
 
 
+COPIERS = {"deep_copy", "deepcopy", "copy", "dict", "list", "OrderedDict"}
+
+
+def check_stored_environments_not_handed_out(ctx, fl) -> None:
+    """R7: reaching-definitions alias analysis of every FlowIRConcrete method that touches the environments region."""
+    RID = "C17.R7-stored-environments-are-not-handed-out"
+    cls = fl.cls("FlowIRConcrete")
+    ctx.require(cls is not None, "anchor missing: FlowIRConcrete")
+
+    def is_env_key(e: ast.AST) -> bool:
+        return (isinstance(e, ast.Attribute) and e.attr == "FieldEnvironments") or (isinstance(e, ast.Constant) and e.value == "environments")
+
+    def is_store(e: ast.AST) -> bool:
+        return isinstance(e, ast.Attribute) and isinstance(e.value, ast.Name) and e.value.id == "self" and e.attr == "_flowir"
+    n_methods = 0
+    for f in [x for x in cls.body if isinstance(x, ast.FunctionDef)]:
+        if not any(is_env_key(x) for x in ast.walk(f)):
+            continue
+        cfg = CFG(f)
+        rd_cache = {}
+
+        def alias(e: ast.AST, at: int, depth: int = 0) -> bool:
+            """may e (evaluated at CFG node `at`) be an object of the stored environments?"""
+            if depth > 8:
+                return False
+            if isinstance(e, ast.Call) and (call_name(e) or "").split(".")[-1] == "cast" and len(e.args) == 2:
+                return alias(e.args[1], at, depth + 1)
+            if isinstance(e, ast.Subscript):
+                if is_store(e.value) and is_env_key(e.slice):
+                    return True
+                return alias(e.value, at, depth + 1)
+            if isinstance(e, ast.Call) and isinstance(e.func, ast.Attribute) and e.func.attr in ("get", "setdefault", "pop") and e.args:
+                if is_store(e.func.value) and is_env_key(e.args[0]):
+                    return True
+                return alias(e.func.value, at, depth + 1)
+            if isinstance(e, ast.IfExp):
+                return alias(e.body, at, depth + 1) or alias(e.orelse, at, depth + 1)
+            if isinstance(e, ast.BoolOp):
+                return any(alias(v, at, depth + 1) for v in e.values)
+            if isinstance(e, ast.Name):
+                if e.id not in rd_cache:
+                    rd_cache[e.id] = flow.reaching_defs(cfg, e.id)
+                for d_ in rd_cache[e.id].get(at, frozenset()):
+                    v = flow.def_value(cfg, d_, e.id)
+                    if v is not None and alias(v, d_, depth + 1):
+                        return True
+                return False
+            return False
+        rets = [n for n in cfg.nodes if n.kind == "stmt" and isinstance(n.ast, ast.Return) and n.ast.value is not None]
+        if not rets:
+            continue
+        n_methods += 1
+        ctx.analysed(f)
+        for rn in rets:
+            bad = alias(rn.ast.value, rn.id)
+            ctx.ob(RID, rn.ast, not bad,
+                   "%s returns a fresh object, not one of the stored environments" % f.name if not bad else
+                   "%s returns an object of the stored environments itself: FlowIRConcrete.instance(platform) starts from get_environments('default') "
+                   "and assigns the layered environments of the selected platform into it, so after instance('alpha') the DEFAULT platform's stored "
+                   "environments hold alpha's variables - every later lookup for another platform (or a copy() of the object) layers over them, "
+                   "and an environment only alpha defines no longer raises FlowIREnvironmentUnknown" % f.name,
+                   construct="%s: %s is not an alias of the stored environments" % (f.name, short(rn.ast, 60)))
+    ctx.floor(RID, n_methods, 2, "methods of FlowIRConcrete that read the environments region and return a value")
+
+
 def run(ctx) -> None:
     ctx.explanation = (
         "Who-may-read rule for the launch environment: every occurrence of os.environ in the environment builders is "
@@ -36,6 +101,9 @@ def run(ctx) -> None:
     ctx.rule("C17.R6-builders-do-not-mutate-the-configuration", "the environment builders work on copies: nothing reachable from self "
              "(e.g. the runtime's system variables) is modified, so one lookup cannot leak variables into the next")
     ctx.rule("C17.R4-name-case", "environment names are lower-cased by every reader and writer")
+    ctx.rule("C17.R7-stored-environments-are-not-handed-out", "no method of FlowIRConcrete returns an object of the stored environments "
+             "(self._flowir['environments'][..]) itself: what a caller writes into the result (instance() layers the selected platform over "
+             "get_environments('default')) must not become the default platform's environment of every later lookup")
 
     conf = ctx.repo.module(CONF)
     fl = ctx.repo.module(FLOWIR)
@@ -468,3 +536,6 @@ def run(ctx) -> None:
     ok = bool(lows) and all(cfg.every_path_to_passes(t, gates=lows) for t in tests)
     ctx.ob("C17.R4-name-case", ewn, ok, "environmentWithName lower-cases the requested name before the branch table" if ok else
            "environmentWithName compares the requested name without lower-casing it", construct="environment_name = environment_name.lower()")
+
+    # ---------------- R7 -------------------------------------------------------------------------------
+    check_stored_environments_not_handed_out(ctx, fl)
